@@ -674,6 +674,32 @@ func (g *G) genInt(t *Type, d int) expr {
 			case !t.Signed() && t.Bits() == 32 && g.excl(ExclFloatToUintBig):
 				hi = "2147483647"
 			}
+			if ft == TF32 && g.coin("directF32") {
+				// convert straight from f32 (its own instruction in the backends): the value is
+				// clamped to bounds that are exact in f32 and inside the target's range, and
+				// rounding a value of [lo, hi] to f32 stays inside [lo, hi]
+				g.feat("conv-f32-direct")
+				var lo32, hi32 string
+				switch {
+				case t.Bits() == 64 && t.Signed():
+					lo32, hi32 = "-4611686018427387904", "4611686018427387904" // ±2^62
+				case t.Bits() == 64:
+					lo32, hi32 = "0", "4611686018427387904"
+					if !g.excl(ExclFloatToUintBig) {
+						hi32 = "9223372036854775808" // 2^63
+					}
+				case t.Bits() == 32 && t.Signed():
+					lo32, hi32 = "-1073741824", "1073741824" // ±2^30
+				case t.Bits() == 32:
+					lo32, hi32 = "0", "1073741824"
+					if !g.excl(ExclFloatToUintBig) {
+						hi32 = "2147483648" // 2^31
+					}
+				default: // u8, u16: the maximum is exact in f32
+					lo32, hi32 = "0", fmt.Sprint(maxOf(t))
+				}
+				return expr{tf("%s(%s(fclamp(%s(%s), %s, %s)))", t.Tri(), TF32.Tri(), TF64.Tri(), x.E, lo32, hi32), false}
+			}
 			return expr{tf("%s(fclamp(%s(%s), %s, %s))", t.Tri(), TF64.Tri(), x.E, lo, hi), false}
 		}
 		st := intTypes[g.n(0, len(intTypes)-1, "fromT")]
